@@ -468,6 +468,10 @@ func (m *Machine) intrinsic(s *State, f *Frame, x *ssa.Call, name string, callee
 		return nil, true
 	case strings.HasSuffix(name, ").ReturnToVTPool") || strings.HasSuffix(name, ").ResetVT"):
 		return nil, true
+	case name == "(github.com/edsrzf/mmap-go.MMap).Flush" || name == "(*github.com/edsrzf/mmap-go.MMap).Unmap":
+		m.stubs["mmap Flush/Unmap: no-op returning nil (durability = the synced-prefix contract)"]++
+		f.env[x] = IfaceV{}
+		return nil, true
 	case name == "regexp.MustCompile":
 		pat, ok := m.toGo(s, args[0], types.Typ[types.String])
 		if !ok {
